@@ -368,13 +368,13 @@ class Inotify:
                                     _move_to_path = inotify_event.src_path + _path[len(move_src_path) :]
                                     self._wd_for_path[_move_to_path] = moved_wd
                                     self._path_for_wd[moved_wd] = _move_to_path
-                    src_path = os.path.join(wd_path, name)
-                    inotify_event = InotifyEvent(wd, mask, cookie, name, src_path)
-                    if self.is_recursive and inotify_event.is_directory and src_path not in self._wd_for_path:
+                    elif self.is_recursive and inotify_event.is_directory:
                         # A directory that arrived from outside the watched tree (or that was renamed
                         # before its watch could be added) is not covered yet: watch it and what it holds.
                         with contextlib.suppress(OSError):
-                            self._add_dir_watch(src_path, self._event_mask, recursive=True)
+                            self._add_dir_watch(inotify_event.src_path, self._event_mask, recursive=True)
+                    src_path = os.path.join(wd_path, name)
+                    inotify_event = InotifyEvent(wd, mask, cookie, name, src_path)
 
                 if inotify_event.is_ignored:
                     # Clean up book-keeping for deleted watches.
